@@ -3,6 +3,7 @@ import VaxisModel.Model.TextField
 import VaxisModel.Model.TextInput
 import VaxisModel.Model.TextInputCells
 import VaxisModel.Model.TextFieldCl
+import VaxisModel.Model.EdGen
 import VaxisModel.Model.TextInputCl
 import VaxisModel.Spec.Editor
 import VaxisModel.Spec.EditorView
@@ -65,12 +66,36 @@ def showCall : TextField.Call Nat → String
   | .submit t => "S" ++ showIds t
 def showLog (l : List String) : String := if l.isEmpty then "-" else ";".intercalate l
 
+/-! ### the TextField as the interpreter run on the translated bodies (`Gen/EditorLang.lean`) -/
+
+def cl1 (s : List Nat) : List (List Nat) := s.map ([·])
+
+def toCl (t : TextField.TF Nat) : TextFieldCl.TF Nat := ⟨t.value, t.cursor, t.n⟩
+def ofCl (t : TextFieldCl.TF Nat) : TextField.TF Nat := ⟨t.value, t.cursor, t.n⟩
+
+/-- An API call through the translated body (`none`: the interpreter has no meaning for it). -/
+def apiI (cl : List Nat → List (List Nat)) (tf : TextFieldCl.TF Nat) (f : String) (args : List (EdLang.V Nat)) : Option (TextFieldCl.TF Nat) :=
+  (EdRun.tfApi EdGen.genTf cl f args tf).map (·.1)
+
+/-- `HandleEvent` through the translated bodies. -/
+def keyI (cl : List Nat → List (List Nat)) (tf : TextFieldCl.TF Nat) (ev : TextField.KeyEv Nat) :
+    Option (TextFieldCl.TF Nat × List (TextFieldCl.Call Nat)) :=
+  (EdRun.tfHandleKey EdGen.genTf cl tf ev).map fun (t, log) =>
+    (t, log.map fun (k, v) => if k = "submit" then TextFieldCl.Call.submit v else TextFieldCl.Call.change v)
+
+/-- The model column when a translated body could not be run. -/
+def noBody : String := "unknown-body"
+
 def tfCanon (s : St) (tf : TextField.TF Nat) (cbs : List (TextField.Call Nat)) : String :=
-  s!"v={showIds tf.value} col={(TextField.drawCursorCol (fun g => [s.w g]) tf).toNat} cb={showLog (cbs.map showCall)}"
+  s!"v={showIds tf.value} col={(TextField.drawCursorCol (fun g => [s.w g]) tf).toNat} cb={showLog (cbs.map showCall)} cur={tf.cursor} n={tf.n}"
 
 /-- What the ideal editor requires of a TextField observation. -/
 def tfExpect (s : St) (ed : Ed Nat) (cbs : List (Callback Nat)) : String :=
-  s!"v={showIds ed.text} col={widthOf s (ed.text.take ed.cursor)} cb={showLog (cbs.map showCb)}"
+  s!"v={showIds ed.text} col={widthOf s (ed.text.take ed.cursor)} cb={showLog (cbs.map showCb)} cur={ed.cursor}"
+
+/-- The implementation's observation without the cached count `n=` (an internal of the widget: it is
+    compared with the model, not judged by the ideal editor). -/
+def dropN (s : String) : String := (s.splitOn " n=").headD s
 
 def verdictEq (what got want : String) : String :=
   if got = want then "ok" else s!"FAIL {what}: implementation {got} but the ideal editor gives {want}"
@@ -86,11 +111,17 @@ def stepTF (s : St) (op : List String) (impl : String) : St × String :=
       let ev : TextField.KeyEv Nat :=
         { release := rel == "1", text := t, home := bit bits 0, toEnd := bit bits 1, right := bit bits 2,
           left := bit bits 3, delRight := bit bits 4, delLeft := bit bits 5, kill := bit bits 6, enter := bit bits 7 }
-      let (tf', cbs) := TextField.handleKey s.tf ev
       let ecb := VaxisModel.Spec.Editor.callbacks isW s.ed sop
       let ed' := VaxisModel.Spec.Editor.apply isW s.ed sop
-      let s' := { s with tf := tf', ed := ed' }
-      (s', s!"{tfCanon s' tf' cbs}\t{impl}\t{verdictEq "textfield" impl (tfExpect s' ed' ecb)}")
+      match keyI cl1 (toCl s.tf) ev with
+      | some (tfc', cbsC) =>
+        let tf' := ofCl tfc'
+        let cbs : List (TextField.Call Nat) := cbsC.map fun c => match c with | .change v => .change v | .submit v => .submit v
+        let s' := { s with tf := tf', ed := ed' }
+        (s', s!"{tfCanon s' tf' cbs}\t{impl}\t{verdictEq "textfield" (dropN impl) (tfExpect s' ed' ecb)}")
+      | none =>
+        let s' := { s with tf := (TextField.handleKey s.tf ev).1, ed := ed' }
+        (s', s!"{noBody}\t{impl}\t{verdictEq "textfield" (dropN impl) (tfExpect s' ed' ecb)}")
     | _, _ => (s, "bad-op\tbad-op\tbad-op")
   | ["draw", w, h] =>
     match w.toNat?, h.toNat? with
@@ -103,20 +134,27 @@ def stepTF (s : St) (op : List String) (impl : String) : St × String :=
     | _, _ => (s, "bad-op\tbad-op\tbad-op")
   | _ =>
     -- programmatic API: no callbacks
-    let r : Option (TextField.TF Nat × Op Nat) :=
+    -- (translated function, arguments, the hand model's result as a fallback, the ideal operation)
+    let r : Option (String × List (EdLang.V Nat) × TextField.TF Nat × Op Nat) :=
       match op with
-      | ["ins", t] => (ids? t).map fun t => (TextField.insertString s.tf t, .insert t)
-      | ["cur", i] => i.toNat?.map fun i => ((TextField.cursorTo s.tf i).1, .moveTo i)
-      | ["delr"] => some ((TextField.deleteRight s.tf).1, .deleteRight)
-      | ["dell"] => some ((TextField.deleteLeft s.tf).1, .deleteLeft)
-      | ["kill"] => some ((TextField.killToEnd s.tf).1, .killToEnd)
-      | ["reset"] => some (TextField.reset s.tf, .reset)
+      | ["ins", t] => (ids? t).map fun t => ("InsertStringAtCursor", [.str t], TextField.insertString s.tf t, .insert t)
+      | ["cur", i] => i.toNat?.map fun i => ("CursorTo", [.num (i : Nat)], (TextField.cursorTo s.tf i).1, .moveTo i)
+      | ["delr"] => some ("DeleteCharRightOfCursor", [], (TextField.deleteRight s.tf).1, .deleteRight)
+      | ["dell"] => some ("DeleteCharLeftOfCursor", [], (TextField.deleteLeft s.tf).1, .deleteLeft)
+      | ["kill"] => some ("DeleteCursorToEndOfLine", [], (TextField.killToEnd s.tf).1, .killToEnd)
+      | ["reset"] => some ("Reset", [], TextField.reset s.tf, .reset)
       | _ => none
     match r with
-    | some (tf', sop) =>
+    | some (f, args, hand, sop) =>
       let ed' := VaxisModel.Spec.Editor.apply isW s.ed sop
-      let s' := { s with tf := tf', ed := ed' }
-      (s', s!"{tfCanon s' tf' []}\t{impl}\t{verdictEq "textfield" impl (tfExpect s' ed' [])}")
+      match apiI cl1 (toCl s.tf) f args with
+      | some tfc' =>
+        let tf' := ofCl tfc'
+        let s' := { s with tf := tf', ed := ed' }
+        (s', s!"{tfCanon s' tf' []}\t{impl}\t{verdictEq "textfield" (dropN impl) (tfExpect s' ed' [])}")
+      | none =>
+        let s' := { s with tf := hand, ed := ed' }
+        (s', s!"{noBody}\t{impl}\t{verdictEq "textfield" (dropN impl) (tfExpect s' ed' [])}")
     | none => (s, "bad-op\tbad-op\tbad-op")
 
 def tiCanon (m : TextInput.TI Nat) : String := s!"v={showIds m.content} cur={m.cursor}"
@@ -312,10 +350,10 @@ def tfcCanon (s : St) (tf : TextFieldCl.TF Nat) (cbs : List (TextFieldCl.Call Na
   let shc : TextFieldCl.Call Nat → String
     | .change t => "C" ++ showClusters (s.cl t)
     | .submit t => "S" ++ showClusters (s.cl t)
-  s!"v={showClusters (s.cl tf.value)} col={(TextFieldCl.drawCursorCol s.cl s.cchars tf).toNat} cb={showLog (cbs.map shc)}{segFlag s.cl tf.value}"
+  s!"v={showClusters (s.cl tf.value)} col={(TextFieldCl.drawCursorCol s.cl s.cchars tf).toNat} cb={showLog (cbs.map shc)} cur={tf.cursor} n={tf.n}{segFlag s.cl tf.value}"
 
 def tfcExpect (s : St) (ed : Ed (List Nat)) (cbs : List (Callback (List Nat))) : String :=
-  s!"v={showClusters ed.text} col={widthOfC s (ed.text.take ed.cursor)} cb={showLog (cbs.map showCbC)}"
+  s!"v={showClusters ed.text} col={widthOfC s (ed.text.take ed.cursor)} cb={showLog (cbs.map showCbC)} cur={ed.cursor}"
 
 def stepTFC (s : St) (op : List String) (impl : String) : St × String :=
   let isW := s.isWordC
@@ -329,11 +367,15 @@ def stepTFC (s : St) (op : List String) (impl : String) : St × String :=
         let ev : TextField.KeyEv Nat :=
           { release := rel == "1", text := t, home := bit bits 0, toEnd := bit bits 1, right := bit bits 2,
             left := bit bits 3, delRight := bit bits 4, delLeft := bit bits 5, kill := bit bits 6, enter := bit bits 7 }
-        let (tf', cbs) := TextFieldCl.handleKey cl s.tfc ev
         let ecb := VaxisModel.Spec.Editor.callbacksC cl isW s.edc sop
         let ed' := VaxisModel.Spec.Editor.applyC cl isW s.edc sop
-        let s' := { s with tfc := tf', edc := ed' }
-        (s', s!"{tfcCanon s' tf' cbs}\t{impl}\t{verdictEq "textfield" impl (tfcExpect s' ed' ecb)}")
+        match keyI cl s.tfc ev with
+        | some (tf', cbs) =>
+          let s' := { s with tfc := tf', edc := ed' }
+          (s', s!"{tfcCanon s' tf' cbs}\t{impl}\t{verdictEq "textfield" (dropN impl) (tfcExpect s' ed' ecb)}")
+        | none =>
+          let s' := { s with tfc := (TextFieldCl.handleKey cl s.tfc ev).1, edc := ed' }
+          (s', s!"{noBody}\t{impl}\t{verdictEq "textfield" (dropN impl) (tfcExpect s' ed' ecb)}")
       | none => (s, "bad-op\tbad-op\tbad-op")
     | none => (s, "bad-op\tbad-op\tbad-op")
   | ["draw", w, h] =>
@@ -346,20 +388,25 @@ def stepTFC (s : St) (op : List String) (impl : String) : St × String :=
         (s, s!"col={col}\t{impl}\t{verdictEq "cursor_column" impl s!"col={want}"}")
     | _, _ => (s, "bad-op\tbad-op\tbad-op")
   | _ =>
-    let r : Option (TextFieldCl.TF Nat × Op (List Nat)) :=
+    let r : Option (String × List (EdLang.V Nat) × TextFieldCl.TF Nat × Op (List Nat)) :=
       match op with
-      | ["ins", t] => (ids? t).map fun t => (TextFieldCl.insertString cl s.tfc t, .insert (cl t))
-      | ["cur", i] => i.toNat?.map fun i => ((TextFieldCl.cursorTo s.tfc i).1, .moveTo i)
-      | ["delr"] => some ((TextFieldCl.deleteRight cl s.tfc).1, .deleteRight)
-      | ["dell"] => some ((TextFieldCl.deleteLeft cl s.tfc).1, .deleteLeft)
-      | ["kill"] => some ((TextFieldCl.killToEnd cl s.tfc).1, .killToEnd)
-      | ["reset"] => some (TextFieldCl.reset s.tfc, .reset)
+      | ["ins", t] => (ids? t).map fun t => ("InsertStringAtCursor", [.str t], TextFieldCl.insertString cl s.tfc t, .insert (cl t))
+      | ["cur", i] => i.toNat?.map fun i => ("CursorTo", [.num (i : Nat)], (TextFieldCl.cursorTo s.tfc i).1, .moveTo i)
+      | ["delr"] => some ("DeleteCharRightOfCursor", [], (TextFieldCl.deleteRight cl s.tfc).1, .deleteRight)
+      | ["dell"] => some ("DeleteCharLeftOfCursor", [], (TextFieldCl.deleteLeft cl s.tfc).1, .deleteLeft)
+      | ["kill"] => some ("DeleteCursorToEndOfLine", [], (TextFieldCl.killToEnd cl s.tfc).1, .killToEnd)
+      | ["reset"] => some ("Reset", [], TextFieldCl.reset s.tfc, .reset)
       | _ => none
     match r with
-    | some (tf', sop) =>
+    | some (f, args, hand, sop) =>
       let ed' := VaxisModel.Spec.Editor.applyC cl isW s.edc sop
-      let s' := { s with tfc := tf', edc := ed' }
-      (s', s!"{tfcCanon s' tf' []}\t{impl}\t{verdictEq "textfield" impl (tfcExpect s' ed' [])}")
+      match apiI cl s.tfc f args with
+      | some tf' =>
+        let s' := { s with tfc := tf', edc := ed' }
+        (s', s!"{tfcCanon s' tf' []}\t{impl}\t{verdictEq "textfield" (dropN impl) (tfcExpect s' ed' [])}")
+      | none =>
+        let s' := { s with tfc := hand, edc := ed' }
+        (s', s!"{noBody}\t{impl}\t{verdictEq "textfield" (dropN impl) (tfcExpect s' ed' [])}")
     | none => (s, "bad-op\tbad-op\tbad-op")
 
 def ticCanon (m : TextInputCl.TIC Nat) : String := s!"v={showClusters m.content} cur={m.cursor}"
